@@ -691,6 +691,38 @@ def c_methval_call(a, b):
     fmt = ('%s-' + str(ev(a))).__mod__
     return fmt(ev(b))
 
+def h_gen_skip(xs, lim):
+    for x in xs:
+        if x < lim:
+            yield x
+        else:
+            ev(('skipped', x))
+
+def c_gen_continue(a, b):
+    out = []
+    for v in h_gen_skip([a, b, 1, 4], 3):
+        ev(('seen', v))
+        if v == b:
+            continue
+        out.append(ev(('kept', v)))
+        ev(('done', v))
+    return out
+
+def h_gen_after(xs):
+    for x in xs:
+        yield x
+        ev(('after', x))
+
+def c_gen_continue_after(a, b):
+    out = []
+    for v in h_gen_after([a, b]):
+        ev(('seen', v))
+        if v == b:
+            continue
+        out.append(v)
+        ev(('done', v))
+    return out
+
 def c_meth(v, a):
     return K(v).caller_m(a)
 
@@ -760,6 +792,7 @@ def main():
         'c_named_cond': itertools.product([None] + vals, vals), 'c_methval': itertools.product(vals, vals), 'c_star': itertools.product(vals, vals),
         'c_starcall': itertools.product(vals, vals), 'c_starcall_kw': itertools.product(vals, vals), 'c_methexpr': itertools.product(vals, vals),
         'c_methval_call': itertools.product(vals, vals),
+        'c_gen_continue': itertools.product(vals, vals), 'c_gen_continue_after': itertools.product(vals, vals),
         'c_rng_swapped': itertools.product(vals, vals), 'c_closure': itertools.product(vals, vals), 'c_try_rest': [(v,) for v in vals], 'c_try_ret': [(v,) for v in vals], 'c_try_norets': [(v,) for v in vals], 'c_rng_self': itertools.product(vals, vals),
     }
     bad = 0
